@@ -443,6 +443,30 @@ fn run(name: &str, j: &J) -> Result<bool, String> {
             println!("  {} over {}: {}; on {} the field is {} and the value function gives {}", e, dt, img, d, expected, y);
             Ok(img.contains(&Value::integer(expected)) || img.contains(&Value::some(Value::integer(expected))))
         }
+        // C11 / C07: the text type contains every text value
+        "c11_text_contains" => {
+            let v = Value::text(j["value"].as_str().unwrap());
+            println!("  DataType::text() contains {:?}: {}", j["value"].as_str().unwrap(), DataType::text().contains(&v));
+            Ok(DataType::text().contains(&v))
+        }
+        // C18: the compilation of a WHERE made of n conjuncts terminates within the deadline
+        "c18_and_chain" => {
+            use qrlew::{hierarchy::Hierarchy, expr::Identifier, sql::parse};
+            use std::sync::Arc;
+            let n = i(j, "conjuncts") as usize; let deadline = i(j, "deadline_s") as u64;
+            let (tx, rx) = std::sync::mpsc::channel();
+            std::thread::spawn(move || {
+                let t: Relation = Relation::table().name("t").schema(vec![("x", DataType::integer_interval(0, 100)), ("y", DataType::float_interval(0., 10.))].into_iter().collect::<Schema>()).size(100).build();
+                let relations: Hierarchy<Arc<Relation>> = vec![t].iter().map(|t| (Identifier::from(t.name()), Arc::new(t.clone()))).collect();
+                let q = format!("SELECT y FROM t WHERE {}", (0..n).map(|k| format!("x > {}", k)).collect::<Vec<_>>().join(" AND "));
+                let r = Relation::try_from(parse(&q).unwrap().with(&relations)).map(|r| r.schema().to_string()).map_err(|e| e.to_string());
+                let _ = tx.send(r);
+            });
+            match rx.recv_timeout(std::time::Duration::from_secs(deadline)) {
+                Ok(r) => { println!("  WHERE with {} conjuncts: {:?}", n, r); Ok(true) }
+                Err(_) => { println!("  WHERE with {} conjuncts: not compiled after {} s", n, deadline); Ok(false) }
+            }
+        }
         // C11: interval-set operations on the real Intervals<i64> versus plain point sets over 0..=9
         "c11_intervals_case" | "c11_intervals_search" => {
             use qrlew::data_type::intervals::Intervals;
